@@ -110,7 +110,8 @@ class C20(Spec):
             "k 2..16, dim 1..4) with updates (clustered, spread and boundary coordinates; lvalue and rvalue overloads), wrong-dimension updates, "
             "queries (also of wrong dimension), merges by const& and by rvalue (also of other dimension / other k), copies and dumps; the random bit and "
             "the Fisher-Yates draws of every compaction are supplied to both sides (LCG seeded by `rnd`, explicit `coins`/`draws` lines, and an exhaustive "
-            "enumeration of all first bits x all draws for tiny cases); a history is non-trivial when some sketch compacted (>= 2 levels) or merged a "
+            "enumeration of all first bits x all draws for tiny cases; a family of far-apart points with supplied coins where compactions promote "
+            "nothing: empty top level / level count shrinking); a history is non-trivial when some sketch compacted (>= 2 levels) or merged a "
             "non-empty sketch; distinct = distinct (T, kernel, k, dim, final n, retained, level sizes) signature")
     trusted_base = ["Lean 4.33 kernel", "axioms: propext, Quot.sound, Classical.choice",
                     "tools/trules/density.py (MIN_K and the shapes of the loop guard / is_empty / level selection are re-read from the header every run)",
@@ -220,6 +221,39 @@ class C20(Spec):
             h.append("q %d %s" % (s, self._point(rng, ty, dims[s], mode)))
         return h
 
+    def _emptytop(self, rng):
+        """pairwise far-apart points (every kernel value underflows to exactly 0): a compaction keeps its first shuffled point iff the
+        coin is 1 and nothing at all iff it is 0.  Coins are supplied explicitly so that upper levels get populated (1) and then a
+        compaction of the TOP level promotes nothing (0): pinned compact() leaves an empty top level, the repaired one drops the
+        empty levels from the top (possibly several; possibly back to one level)."""
+        ty = rng.choice(["f32", "f64"])
+        ker = rng.choice([0, 0, 2])
+        step = 100.0 if ty == "f64" else 45.0
+        hx = f64hex if ty == "f64" else f32hex
+        nsk = rng.choice([1, 2])
+        h = ["rnd %d" % rng.randrange(2 ** 64)]
+        for s in range(nsk):
+            h.append("new %d %s %d %d 1" % (s, ty, ker, rng.choice([2, 2, 3, 4])))
+        pos = list(range(-60, 60))
+        rng.shuffle(pos)
+        p1 = rng.choice([0.0, 0.3, 0.6, 0.9])
+        for i in range(rng.choice([12, 30, 60, 100])):
+            s = rng.randrange(nsk)
+            if i % 5 == 0:
+                h.append("coins %s" % "".join("1" if rng.random() < p1 else "0" for _ in range(12)))
+            r = rng.random()
+            if r < 0.8 and pos:
+                h.append("upd %d %s" % (s, hx(pos.pop() * step)))
+            elif r < 0.9:
+                h.append("q %d %s" % (s, hx(rng.randrange(-60, 60) * step)))
+            elif r < 0.95 and nsk > 1:
+                h.append("merge %d %d" % (s, 1 - s))
+            else:
+                h.append("dump %d" % s)
+        for s in range(nsk):
+            h += ["dump %d" % s, "q %d %s" % (s, hx(0.0))]
+        return h
+
     def _malformed(self, rng):
         ty = rng.choice(["f32", "f64"])
         h = ["rnd 7", "new 0 %s 0 0 1" % ty, "new 0 %s 1 1 2" % ty, "new 0 %s 0 2 2" % ty, "q 0 %s" % self._point(rng, ty, 2, "grid"),
@@ -252,6 +286,7 @@ class C20(Spec):
         nh = 300 if tier == "quick" else 3000
         hs = [self._history(rng, tier) for _ in range(nh)]
         hs += [self._malformed(rng) for _ in range(2 if tier == "quick" else 6)]
+        hs += [self._emptytop(rng) for _ in range(40 if tier == "quick" else 300)]
         ex = self._exhaustive(rng)
         hs += ex if tier != "quick" else ex[::3]
         return hs
@@ -309,6 +344,13 @@ class C20(Spec):
                     st["max_levels_seen"] = max(st.get("max_levels_seen", 0), o["L"])
             if o["r"] == 0 and o["n"] > 0:
                 self._count("emptied_states_seen")
+            if o["sz"] and len(o["sz"]) > 1 and o["sz"][-1] == 0:
+                self._count("empty_top_level_seen")
+            pl = last.get(sid)
+            if pl is not None and pl["L"] is not None and o["L"] is not None and o["L"] < pl["L"]:
+                self._count("level_count_decreased")
+            if o["L"] == 1 and o["r"] < o["n"]:
+                self._count("one_level_after_lossy_compaction")
             if o["n"] != exp_n[sid]:
                 bad.append(("n-not-exact", "get_n=%d expected=%d" % (o["n"], exp_n[sid]), i))
                 exp_n[sid] = o["n"]
@@ -476,7 +518,9 @@ class C20(Spec):
                     bad.append(("estimate-negative-or-not-finite", repr(e), i))
                     continue
                 il = inputs[sid].lst
-                if ls is not None and ls["L"] == 1 and sid not in lossy and il and len(il) == ls["n"]:
+                # "before the first (lossy) compaction" = one level and nothing dropped (with the repaired compact() a sketch can be back
+                # at one level after a compaction that kept nothing; on the pinned shape one level implies retained == n)
+                if ls is not None and ls["L"] == 1 and ls["r"] == ls["n"] and sid not in lossy and il and len(il) == ls["n"]:
                     vals = [kernel_value(c["ty"], c["ker"], p, q) for p in il]
                     n = len(vals)
                     self._count("exact_mode_mean_checks")
@@ -508,7 +552,7 @@ class C20(Spec):
                             bad.append(("retained-point-not-an-input", "point %s weight %d" % (list(p), wt), i))
                             break
                     il = inputs[sid].lst
-                    if ls is not None and ls["L"] == 1 and il is not None:
+                    if ls is not None and ls["L"] == 1 and ls["r"] == ls["n"] and il is not None:
                         if [C20.Inputs.key(p) for _, p in pts] != [C20.Inputs.key(p) for p in il]:
                             bad.append(("exact-mode-points-ne-inputs", "retained=%d inputs=%d" % (len(pts), len(il)), i))
                 continue
@@ -545,7 +589,9 @@ CLAIM = dict(
           "density_sketch: the compaction loop terminates for every choice (measure proof); num_retained = iterated points = sum of level sizes with "
           "weights 2^level; num_retained <= k*levels after every operation; wrong-dimension updates/merges refused; n exact for every history without an "
           "emptied merge operand; in exact arithmetic the estimate is the exact kernel mean while one level exists and is >= 0 for a non-negative kernel "
-          "while there are <= 31 levels. The model (with the code's own random-bit/shuffle/discrepancy-sign choice, in Float and Float32) is tied "
+          "while there are <= 31 levels; every theorem holds for both shapes of compact() (pinned / repaired: empty levels dropped from the top "
+          "after compact_level, flag density_COMPACT_POPS_EMPTY_TOP), and for the repaired shape the top level of a sketch with more than one "
+          "level is never empty (the WF hypothesis of the wire round trip, C09). The model (with the code's own random-bit/shuffle/discrepancy-sign choice, in Float and Float32) is tied "
           "bit-exactly to the real headers on generated histories, and the property statement is checked on every implementation trace. Three statements "
           "are FALSE of the current code and kept as *_full_false with witnesses replayed every run (open known findings, proposed_fixes/C20-*.patch): "
           "merge drops n of an operand whose compaction kept nothing; get_estimate does not check the query dimension; get_estimate weights level 31 "
